@@ -51,7 +51,7 @@ class C09Spec(seqx.Spec):
 def main(tier, seed=0):
     t0 = time.time()
     if tier == "quick":
-        runs = [C09Spec("astd", 4)]
+        runs = [C09Spec("astd", 5)]
     else:
         runs = [C09Spec("astd", 6), C09Spec("tok", 5), C09Spec("sync", 6, sides=("s",))]
     total = None
